@@ -50,8 +50,11 @@ pub const POOLCNT: u16 = 16;
 /// property of TCP and not of the code under test.
 pub const SOCKBUF: i32 = 8192;
 pub const CTRL: usize = 64;
-const PROGRAM_WATCHDOG: Duration = Duration::from_secs(40);
-const STEP_TIMEOUT: Duration = Duration::from_secs(15);
+const PROGRAM_WATCHDOG: Duration = Duration::from_secs(30);
+const STEP_TIMEOUT: Duration = Duration::from_secs(12);
+/// a combination in which this many programs did not finish is not continued (every further
+/// program would wait for the watchdog again); what was recorded so far is judged
+const MAX_HANGS: u64 = 3;
 const DRAIN_CAP: usize = 131072;
 
 #[derive(Deserialize, Clone, Debug, Default)]
@@ -208,6 +211,21 @@ pub fn raw(v: &Vec<u8>, k: usize) -> &[u8] {
 
 pub fn runs_json(r: &[(i64, u64)]) -> Value {
     Value::Array(r.iter().map(|(o, l)| json!([o, l])).collect())
+}
+
+/// runs plus, for short stretches that could not be located in the pattern space on their own
+/// (offset -1), the bytes themselves: the check locates them from the following chunk
+pub fn runs_fields(r: &[(i64, u64)], data: &[u8]) -> Value {
+    let mut amb = Vec::new();
+    let mut pos = 0usize;
+    for (o, l) in r {
+        if *o < 0 && *l <= 64 {
+            let hex: String = data[pos..pos + *l as usize].iter().map(|b| format!("{b:02x}")).collect();
+            amb.push(json!([pos, hex]));
+        }
+        pos += *l as usize;
+    }
+    if amb.is_empty() { json!({"runs": runs_json(r)}) } else { json!({"runs": runs_json(r), "amb": amb}) }
 }
 
 pub fn send_fields(op_i: usize, plan: &Plan, op: &Op) -> Value {
@@ -394,6 +412,7 @@ fn run_one(tr: &'static str, drv: DriverType, drvname: &'static str, prog: &Prog
     }
     rep.cases += 1;
     if status == "hang" {
+        stats.hangs += 1;
         rep.problem("hang", json!({"site": "socket", "tr": tr, "drv": drvname}),
                     format!("program {} did not finish within {:?}", prog.id, PROGRAM_WATCHDOG), &case, 0);
     } else if status.starts_with("panic") {
@@ -412,6 +431,8 @@ struct ComboStats {
     kinds: BTreeMap<String, u64>,
     unsupported: BTreeMap<String, u64>,
     driver_unavailable: Option<String>,
+    hangs: u64,
+    stopped_after: Option<u64>,
 }
 
 fn main() {
@@ -493,6 +514,10 @@ fn main() {
             if stats.driver_unavailable.is_some() && stats.programs >= 1 && stats.events <= 2 {
                 break;
             }
+            if stats.hangs >= MAX_HANGS {
+                stats.stopped_after = Some(stats.programs);
+                break;
+            }
         }
         drop(cached);
         log.flush();
@@ -502,6 +527,7 @@ fn main() {
             format!("{tr}:{drvname}"),
             json!({"programs": stats.programs, "events": stats.events, "kinds": stats.kinds,
                    "unsupported": stats.unsupported, "driver_unavailable": stats.driver_unavailable,
+                   "hangs": stats.hangs, "stopped_after": stats.stopped_after,
                    "trace": path.to_string_lossy()}),
         );
     }
